@@ -79,7 +79,27 @@ def mime_header(E):
     ser = E.lookup(HP + 'serialize_well_known_encoding')
     par = E.lookup(HP + 'parse_well_known_encoding')
     rest = E.fresh_bytes('rest')
-    kind = E.path.choice(3, 'encoding-kind')
+    kind = E.path.choice(4, 'encoding-kind')
+    if kind == 3:
+        # the encoder serves two name spaces (MIME types, authentication types) selected by its second argument: its result is
+        # a function of (name, table) alone - whatever was encoded before, in whichever order.  Every name of one table that
+        # is not a name of the other is a CUSTOM name there.
+        auth = E.lookup(AT)
+        a_by_name = E.getattr(auth, 'get_by_name')
+        ok = True
+        mime_names = {lift_bytes(m.value.attrs['name']).conc for m in enum.members.values()}
+        order = E.path.choice(2, 'first-encoded-under')
+        for m in auth.members.values():
+            nm = lift_bytes(m.value.attrs['name']).conc
+            if nm in mime_names:
+                continue
+            want_auth = bytes([0x80 | m.value.attrs['id']])
+            want_mime = bytes([len(nm) - 1]) + nm
+            for table, want in ([(a_by_name, want_auth), (get_by_name, want_mime)] if order == 0 else [(get_by_name, want_mime), (a_by_name, want_auth)]) * 2:
+                ok = ok and lift_bytes(E.call(ser, [nm, table])).conc == want
+        E.cover('namespaces')
+        E.prove('namespaces:result_depends_only_on_name_and_table[an authentication type name is a custom MIME name, in any order of use]', ok)
+        return
     if kind == 0:
         name = custom_name(E)
         out = E.call(ser, [name, get_by_name])
